@@ -55,6 +55,15 @@ def gen_world_spec(seed, rng):
                          'exc': 'NotImplementedError', 'where': 'parent'})
             modes.append({'j': rng.randint(2, 3), 'pm': True})
             modes.append({'pm': True})
+    if seed % 3 == 1:
+        # a child whose report never arrives (its stdout does): what the parent says about that
+        # must not change where the layer's output appears
+        srng = random.Random(seed ^ 0xC10)
+        m = W.Model(world)
+        for lf in srng.sample(sorted(m.select({})), min(2, len(m.select({})))):
+            if srng.random() < 0.7:
+                plan.append({'site': 'channel', 'ident': lf, 'a': 'truncate_report',
+                             'at': srng.choice([0, 0, 3, 12])})
     return {'property': ID, 'seed': seed, 'kind': 'world', 'world': world, 'plan': plan,
             'opt': opt, 'modes': modes,
             'knobs': {'pipe_capacity': rng.choice([64, 4096, 65536])}, 'sched': {'prng': seed}}
